@@ -62,7 +62,8 @@ def main():  # pylint: disable=R1710
 
     if args.c:
         try:
-            wal.eval(args.c)
+            for sexpr in read_wal_sexprs(args.c):
+                wal.eval(sexpr)
         except Exception as e: # pylint: disable=W0703
             print()
             print('>>>>> Runtime error! <<<<<')
